@@ -176,6 +176,23 @@ def sender_vectors(args):
             break
         got.append(list(e.mac))
     out.append(dict(k="order", read_macs=got, arrived_macs=macs[-len(got):] if got else []))
+    # two receiving objects in one process, fed and polled in turn: each hands out exactly what ITS radio received
+    if len(out) >= 4:
+        rxa, rxb = Rx(), Rx()
+        plan = [(rxa, out[0]), (rxb, out[1]), (rxa, out[2]), (rxb, out[3])]
+        want = {id(rxa): [], id(rxb): []}
+        for r_, v in plan:
+            if v.get("k") == "rx" and v.get("has_sent"):
+                r_.feed(v["payload"], v["rfch"])
+                want[id(r_)].append(v["sent"]["mac"])
+        for r_ in (rxa, rxb):
+            got = []
+            while True:
+                e = r_.ble.read()
+                if e is None:
+                    break
+                got.append(list(e.mac))
+            out.append(dict(k="order", read_macs=got, arrived_macs=want[id(r_)]))
     return out
 
 
